@@ -376,7 +376,7 @@ Proof.
       2:{ injection E as <- <-. split; [exact Hx1|]. left. split; [exact Hk1|discriminate]. }
       apply state_commit_state in Ec as [Hx2 Ec].
       assert (Hfin : forall b bs, published t (mkWorld objs' b (Some so)
-                                   (exec_prefs (w_prefs w1) (t_updated t)) wt' um' bs)).
+                                   (exec_prefs (w_prefs w1) (t_updated t)) wt' um' bs (w_apc w1))).
       { intros b bs. split; [cbn; eapply store_extends_trans; eauto|].
         intros n. unfold patch_commit, cur_state. cbn [w_stack w_objs]. rewrite Ec.
         unfold exec_state. cbn [s_patches]. rewrite pm_get_apply, Ep1, <- Hst. reflexivity. }
@@ -481,7 +481,7 @@ Proof.
     | None => None
     | Some (objs', so) =>
         Some (mkOpened (ensure_patch_refs
-                 (mkWorld objs' (w_branch w) (Some so) (w_prefs w) (w_wt w) (w_unmerged w) (w_base w))
+                 (mkWorld objs' (w_branch w) (Some so) (w_prefs w) (w_wt w) (w_unmerged w) (w_base w) (w_apc w))
                  (empty_state (w_branch w))) (empty_state (w_branch w)) (w_branch w) true)
     end = Some op -> store_extends (w_objs w) (w_objs (op_world op)) /\ kept w (op_world op)).
   { intros Hs E. destruct (state_commit _ _ _) as [[objs' so]|] eqn:Ec; [|discriminate].
@@ -536,7 +536,7 @@ Lemma exec_ok_shape : forall w t halted msg w',
     /\ state_commit (w_objs w1) (exec_state t th prev st1) msg = Some (objs', so)
     /\ w' = mkWorld objs' (if o_set_head (t_opts t) then th else w_branch w1) (Some so)
                     (exec_prefs (w_prefs w1) (t_updated t)) wt' um'
-                    (match t_base t with Some b => b | None => w_base w1 end)
+                    (match t_base t with Some b => b | None => w_base w1 end) (w_apc w1)
     /\ halted = None.
 Proof.
   intros w t halted msg w' E. unfold exec_body in E.
